@@ -49,6 +49,8 @@ BASE = [
     (C('h', C('box', Z)), None), (C('h', L(Z, tail=W)), None),
     (C('d', A('a')), None), (C('d', A('a')), None), (C('d', A('b')), None), (C('d', X), gc('q', X)),
     (C('pr', X, Y, C('k', Y, X)), None),
+    # stored lists whose last element is a list / the empty list
+    (C('nl', L(L(A('a'), I(1)), L(A('b'), I(2)))), None), (C('nl', L(A('d'), L())), None), (C('nl', L(X, L(X, L(A('e'))))), None),
     # a first answer that binds nothing followed by one that binds; facts whose every argument is `$_`
     (C('u', ('anon',)), None), (C('u', I(5)), None), (C('any', ('anon',)), None), (C('any2', ('anon',), ('anon',)), None),
     # predicates defined by rules only: their first answer already comes out of a live rule body
